@@ -887,7 +887,8 @@ func main() {
 		"decodable and undecodable bodies (9 kinds), every string of 2 sequences up to a bound per kind, then random mixes; " +
 		"dispatch: requests through runner.DispatchOnRequest/DispatchOnResponse with a retry remedy and a fixed-response / " +
 		"throttling remedy answering inside the retry conditions: attempts+2.. consecutive gateway-made responses of 1-3 " +
-		"round-robin sequences, then random mixes of early and provider responses; distinct = distinct (settings, history, observed answers); non-trivial = flows: some round ended " +
+		"round-robin sequences, then random mixes of early and provider responses; patient (all suites): attempts 255, 256, 300, 1000 " +
+		"with cool-down 0 and one call (or two interleaved) that keeps failing past attempts+1 responses, then the id reused; distinct = distinct (settings, history, observed answers); non-trivial = flows: some round ended " +
 		"with failed (flowbody: and responses of another sequence lay between those of the call); dispatch: a sequence got more " +
 		"gateway-made retryable responses than attempts and both answers occurred; policy: at least one retry and at least one retryable response answered noop")
 	var k Case
@@ -912,5 +913,6 @@ func main() {
 	genEngine(o)
 	genFlowBody(o)
 	genDispatch(o)
+	genPatient(o)
 	o.Finish()
 }
